@@ -135,8 +135,8 @@ def run(tier, work):
             continue
         v.count("differences")
         key = context(jobs[base_i]["files"]["t.rb"], r, frs[fi])
-        if key in v.known:
-            v.known_hit(key)
+        if v.seen(key):
+            v.again(key)
             continue
         bb = C.confirm_alone(work, {"cfg": cfg, "files": jobs[base_i]["files"], "args": job["args"]}, runs=1)[0]
         eb = C.confirm_alone(work, {"cfg": cfg, "files": job["files"], "args": job["args"]}, runs=1)[0]
